@@ -515,3 +515,11 @@ func (p *pager) dropped() {
 	p.walPages = map[uint32][]byte{}
 	p.walOff = 0
 }
+
+// restarted resets what a LiteFS restart resets: locks are gone, the journal is rolled back and
+// removed, the WAL is checkpointed and truncated.
+func (p *pager) restarted() {
+	p.journalFile, p.dmsHeld, p.walInit, p.walFile = false, false, false, false // the pager re-opens (O_CREAT) its files
+	p.walPages = map[uint32][]byte{}
+	p.walOff = 0
+}
